@@ -249,10 +249,9 @@ def run_eager(ck, s, lay, A, j, x0, cfg, name="E", public=False, maxiter=None):
         kw["norm_ord"] = ORDS[s["ord"]]
     kw["_raise_nonposdef"] = s["raise"]
     kw["name"] = name
-    Aj = jnp.asarray(A)
-    mat = lay.matfun(Aj)
-    jj = lay.wrap(jnp.asarray(j))
-    xx0 = lay.wrap(jnp.asarray(x0)) if x0 is not None else None
+    mat = lay.matfun_eager(A)
+    jj = lay.wrap(np.asarray(j))
+    xx0 = lay.wrap(np.asarray(x0)) if x0 is not None else None
     st["trace"].pop("E", None)
     ck.hit("eager_runs")
     try:
@@ -434,8 +433,8 @@ def case(ck, i):
         if ord_ is not None:
             kw["norm_ord"] = ord_
         jnp, cgm = st["jnp"], st["cgm"]
-        r2 = cgm._static_cg(lay.matfun(jnp.asarray(A)), lay.wrap(jnp.asarray(j)),
-                            lay.wrap(jnp.asarray(x0)) if x0 is not None else None,
+        r2 = cgm._static_cg(lay.matfun(jnp.asarray(A)), lay.wrap(np.asarray(j)),
+                            lay.wrap(np.asarray(x0)) if x0 is not None else None,
                             _raise_nonposdef=s["raise"], **kw)
         ck.hit("static_unjitted_runs")
         x2 = lay.flat_np(r2.x)
@@ -569,7 +568,7 @@ def compare(ck, eg, sg, s, x0v, tie, cfg):
     import os
     if os.environ.get("C15_DEBUG"):
         with open("/tmp/agF/dbg.txt", "a") as fh:
-            fh.write(f"{d/sc:.3e} {eg['nit']} {rs.layout(s['layout']).n} {s['klass']}\n")
+            fh.write(f"{d/sc:.3e} i={ck.i} {eg["info"]} {sg["info"]} {eg["nit"]} {rs.layout(s['layout']).n} {s['klass']}\n")
     if d > 1e-7 * sc:
         ck.violation("cg:eager-vs-static-x", "eager and compiled CG return different solutions",
                      maxdev=float(d), scale=float(sc), cfg=cfg)
